@@ -20,8 +20,8 @@
 //	(omitted, "-", when there are too many); the model uses them as its `score` parameter
 //	and separately compares its own Float scorer against them.
 //
-// Each Plan call runs in a goroutine with a deadline: a planner that does not return is reported as
-// the observation "timeout" (the stuck goroutine is abandoned).
+// Each Plan call runs in a goroutine with a deadline and a cap on the number of rosters it may score: a
+// planner that does not return is the observation "timeout" / "runaway", not the death of the harness.
 package main
 
 import (
@@ -184,7 +184,7 @@ func rosterKey(r []mergeplan.Segment) string {
 
 // ---------------------------------------------------------------- running the real planner
 
-const planDeadline = 20 * time.Second
+const planDeadline = 10 * time.Second
 const maxScoreEntries = 1500
 const maxScoreBytes = 200000
 
@@ -197,8 +197,17 @@ type planObs struct {
 	plan    *mergeplan.MergePlan
 }
 
-// runPlan calls the real planner; "timeout" and "panic" are observations.
+// callPlan calls the real planner in a goroutine with a deadline; "timeout", "runaway" and "panic" are
+// observations. After the first timeout the planner is not called again in this process (the stuck
+// goroutine keeps a core busy): later calls report "skipped-after-timeout".
+var plannerStuck bool
+
+const runawayMark = "c19-runaway"
+
 func callPlan(segs []mergeplan.Segment, o *mergeplan.Options) (res string, plan *mergeplan.MergePlan) {
+	if plannerStuck {
+		return "skipped-after-timeout", nil
+	}
 	type r struct {
 		s string
 		p *mergeplan.MergePlan
@@ -207,7 +216,11 @@ func callPlan(segs []mergeplan.Segment, o *mergeplan.Options) (res string, plan 
 	go func() {
 		defer func() {
 			if e := recover(); e != nil {
-				ch <- r{"panic", nil}
+				if e == runawayMark {
+					ch <- r{"runaway", nil}
+				} else {
+					ch <- r{"panic", nil}
+				}
 			}
 		}()
 		p, err := mergeplan.Plan(segs, o)
@@ -221,18 +234,18 @@ func callPlan(segs []mergeplan.Segment, o *mergeplan.Options) (res string, plan 
 	case x := <-ch:
 		return x.s, x.p
 	case <-time.After(planDeadline):
+		plannerStuck = true
 		return "timeout", nil
 	}
 }
 
+// observePlan runs the planner twice: first with recording hooks that call the library's own
+// CalcBudget / ScoreSegments (and stop a planner that scores more rosters than any terminating run can:
+// at most one roster per start index per iteration, at most one iteration per eligible segment), then
+// with nil hooks (the library's defaults); both must return the same tasks.
 func observePlan(ss []*seg, o opts) planObs {
 	var ob planObs
 	segs := asSegments(ss)
-	ob.plain, ob.plan = callPlan(segs, o.real())
-	if ob.plain == "timeout" {
-		ob.hooked, ob.budget, ob.scores = "timeout", "budget=-", "-"
-		return ob
-	}
 	ro := o.real()
 	ob.budget = "budget=-"
 	ro.CalcBudget = func(total, first int64, oo *mergeplan.Options) int {
@@ -243,9 +256,13 @@ func observePlan(ss []*seg, o opts) planObs {
 	seen := map[string]bool{}
 	var sb strings.Builder
 	over := false
+	scoreCap := len(ss)*len(ss) + len(ss) + 10
 	ro.ScoreSegments = func(r []mergeplan.Segment, oo *mergeplan.Options) float64 {
 		v := mergeplan.ScoreSegments(r, oo)
 		ob.nScored++
+		if ob.nScored > scoreCap {
+			panic(runawayMark)
+		}
 		if !over {
 			k := rosterKey(r)
 			if !seen[k] {
@@ -262,12 +279,19 @@ func observePlan(ss []*seg, o opts) planObs {
 		}
 		return v
 	}
-	ob.hooked, _ = callPlan(segs, ro)
+	ob.hooked, ob.plan = callPlan(segs, ro)
 	if over || sb.Len() == 0 {
 		ob.scores = "-"
 	} else {
 		ob.scores = sb.String()
 	}
+	switch ob.hooked {
+	case "timeout", "runaway", "skipped-after-timeout":
+		ob.plain = ob.hooked
+		ob.scores = "-"
+		return ob
+	}
+	ob.plain, ob.plan = callPlan(segs, o.real())
 	return ob
 }
 
@@ -276,7 +300,8 @@ func (ob planObs) result() string {
 	if ob.plain != ob.hooked {
 		return "hook-divergence plain=" + ob.plain + " hooked=" + ob.hooked
 	}
-	if ob.plain == "nil" || ob.plain == "timeout" || ob.plain == "panic" || ob.plain == "err" {
+	switch ob.plain {
+	case "nil", "timeout", "runaway", "skipped-after-timeout", "panic", "err":
 		return ob.plain
 	}
 	return ob.budget + " tasks=" + ob.plain + " scores=ok"
@@ -983,11 +1008,13 @@ func wholeGrowth(g float64) bool {
 
 func classify(ob planObs) string {
 	switch ob.plain {
-	case "nil", "timeout", "panic", "err", "-":
-		if ob.plain == "-" {
+	case "nil", "timeout", "runaway", "skipped-after-timeout", "panic", "err", "-":
+		if ob.plain == "-" && ob.hooked == "-" {
 			return "no-task"
 		}
-		return ob.plain
+		if ob.plain == ob.hooked {
+			return ob.plain
+		}
 	}
 	if ob.plain != ob.hooked {
 		return "hook-divergence"
